@@ -126,11 +126,17 @@ static Res run_case(const Case & c, const std::string & dir)
         rd->reset_configuration();
         if (rd->is_configured()) return fail("reset-keeps-configured", "is_configured() is still true after reset_configuration()");
       }
+      if (c.how == 3) { // a configuration the reader cannot apply (white-space-only file, then a missing file) must be refused and leave the object clean
+        std::string ws = dir + "/ws-only.d0t"; { std::ofstream o(ws); o << "  \n\n"; }
+        bxdecay0::event_reader::config_type bad = cfg; bad.event_files = {ws, dir + "/does-not-exist.d0t"};
+        bool refused = false; try { rd->set_configuration(bad); } catch (std::exception &) { refused = true; }
+        if (!refused || rd->is_configured()) return fail("missing-file-accepted", "a configuration naming a missing file was accepted");
+      }
       rd->set_configuration(cfg);
     }
-  } catch (std::exception & e) { return fail("configure-throws", std::string("set_configuration raised: ") + e.what()); }
+  } catch (std::exception & e) { return fail(c.how == 3 ? "configure-throws-after-failed-configuration" : "configure-throws", std::string("set_configuration raised: ") + e.what()); }
   if (!rd->is_configured()) return fail("not-configured", "is_configured() is false after the configuration was set");
-  r.shape += c.how == 0 ? "/ctor" : (c.how == 1 ? "/set" : "/reused");
+  r.shape += c.how == 0 ? "/ctor" : (c.how == 1 ? "/set" : (c.how == 2 ? "/reused" : "/after-refused-config"));
   if (!c.crlf_files.empty()) r.shape += "/crlf";
   int delivered = 0, expect_total = hi - lo;
   std::vector<int> ops = c.ops; // then drain: H L H L ... until model says done, plus two extra has_next
@@ -230,7 +236,7 @@ int main(int argc, char ** argv)
       c.max = mk == 0 ? 0 : (mk == 1 ? std::max(0, n - c.start) : *rc::gen::resize(100, rc::gen::inRange(0, n + 3)));
       c.ops = *rc::gen::resize(30, rc::gen::container<std::vector<int>>(rc::gen::resize(100, rc::gen::inRange(0, 2))));
       c.zero_time = *rc::gen::resize(100, rc::gen::inRange(0, 5)) == 0;
-      c.how = *rc::gen::resize(100, rc::gen::inRange(0, 3));
+      c.how = *rc::gen::resize(100, rc::gen::inRange(0, 4));
       if (*rc::gen::resize(100, rc::gen::inRange(0, 4)) == 0) c.crlf_files = *rc::gen::resize(4, rc::gen::container<std::vector<int>>(rc::gen::resize(100, rc::gen::inRange(0, 7))));
       if (c.how == 2) { c.pre_start = *rc::gen::resize(100, rc::gen::inRange(0, n + 2)); c.pre_max = *rc::gen::resize(100, rc::gen::inRange(0, n + 2)); c.pre_reads = *rc::gen::resize(100, rc::gen::inRange(0, n + 3)); }
       Res r = run_case(c, dir);
